@@ -15,6 +15,16 @@ def Tr.shape : Tr → Bool
 
 def shapeTr (l : List Tr) : List Tr := l.filter Tr.shape
 
+/-- an `ExceptionSignal` was enqueued (an ordinary exception was caught by one of the `except Exception`
+scopes of the library — or application code enqueued such a signal itself) -/
+def Tr.isExc : Tr → Bool
+  | .enq _ s => s.cls == .exception
+  | .dropped s => s.cls == .exception
+  | _ => false
+
+/-- no `ExceptionSignal` in the history -/
+def cleanTr (l : List Tr) : Bool := l.all fun t => !t.isExc
+
 /-- the shape view -/
 structure SV where
   code : List Instr
@@ -26,9 +36,14 @@ structure SV where
   stack : List Entry
   nextEid : Nat
   ev : List Tr
+  clean : Bool
 
 def Cfg.sv (c : Cfg) : SV :=
-  ⟨c.code, c.L.levels, c.L.runLoop, c.L.forceQuit, c.L.active, c.L.queues.length, c.A.stack, c.A.nextEid, shapeTr c.tr⟩
+  ⟨c.code, c.L.levels, c.L.runLoop, c.L.forceQuit, c.L.active, c.L.queues.length, c.A.stack, c.A.nextEid, shapeTr c.tr,
+   cleanTr c.tr⟩
+
+/-- record that a signal of class `exception` (`b = true`) or of another class was enqueued -/
+def SV.noteExc (v : SV) (b : Bool) : SV := { v with clean := !b && v.clean }
 
 /-- the configuration inside a step result -/
 def outCfg : Except (Outcome × Cfg) Cfg → Cfg
@@ -65,31 +80,36 @@ theorem Grow.of_tr_eq {a b c : Cfg} (h : b.tr = c.tr) : Grow a b → Grow a c
 
 /-! ### `enqueue` -/
 
-theorem enqueue_tr (c : Cfg) (s : Sig) : ∃ t, t.shape = false ∧ (c.enqueue s).tr = t :: c.tr := by
-  unfold Cfg.enqueue; split
-  · exact ⟨_, rfl, rfl⟩
-  · exact ⟨_, rfl, rfl⟩
+theorem cleanTr_cons (t : Tr) (l : List Tr) : cleanTr (t :: l) = (!t.isExc && cleanTr l) := rfl
 
-@[simp] theorem sv_enqueue (c : Cfg) (s : Sig) : (c.enqueue s).sv = c.sv := by
+theorem noteExc_false (v : SV) : v.noteExc false = v := rfl
+
+theorem shape_not_exc {t : Tr} (h : t.shape = true) : t.isExc = false := by
+  cases t <;> first | rfl | (cases h; done)
+
+theorem enqueue_tr (c : Cfg) (s : Sig) :
+    ∃ t, t.shape = false ∧ t.isExc = (s.cls == .exception) ∧ (c.enqueue s).tr = t :: c.tr := by
   unfold Cfg.enqueue; split
-  · simp [Cfg.sv, Cfg.trace, shapeTr_cons, Tr.shape]
-  · simp [Cfg.sv, shapeTr_cons, Tr.shape, listSet]
+  · exact ⟨_, rfl, rfl, rfl⟩
+  · exact ⟨_, rfl, rfl, rfl⟩
+
+theorem sv_enqueue (c : Cfg) (s : Sig) : (c.enqueue s).sv = c.sv.noteExc (s.cls == .exception) := by
+  unfold Cfg.enqueue; split
+  · simp [Cfg.sv, Cfg.trace, shapeTr_cons, Tr.shape, SV.noteExc, cleanTr_cons, Tr.isExc]
+  · simp [Cfg.sv, shapeTr_cons, Tr.shape, listSet, SV.noteExc, cleanTr_cons, Tr.isExc]
+
+/-- enqueueing a signal that is not an `ExceptionSignal` does not change the view -/
+theorem sv_enqueue_ne (c : Cfg) (s : Sig) (h : (s.cls == .exception) = false) : (c.enqueue s).sv = c.sv := by
+  rw [sv_enqueue, h]; rfl
 
 theorem grow_enqueue {a c : Cfg} (s : Sig) (h : Grow a c) : Grow a (c.enqueue s) := by
-  obtain ⟨t, _, ht⟩ := enqueue_tr c s
+  obtain ⟨t, _, _, ht⟩ := enqueue_tr c s
   exact h.trans ⟨[t], ht⟩
 
 /-! ### `trace`, `push`, `write`, `redraw` -/
 
-theorem sv_trace (c : Cfg) (t : Tr) :
-    (c.trace t).sv = { c.sv with ev := if t.shape then t :: c.sv.ev else c.sv.ev } := by
-  simp only [Cfg.sv, Cfg.trace, shapeTr_cons]
-
 theorem sv_trace_shape (c : Cfg) (t : Tr) (h : t.shape = true) : (c.trace t).sv = { c.sv with ev := t :: c.sv.ev } := by
-  rw [sv_trace, if_pos h]
-
-theorem sv_trace_boring (c : Cfg) (t : Tr) (h : t.shape = false) : (c.trace t).sv = c.sv := by
-  rw [sv_trace]; simp [h]
+  simp [Cfg.sv, Cfg.trace, shapeTr_cons, h, cleanTr_cons, shape_not_exc h]
 
 theorem grow_trace {a c : Cfg} (t : Tr) (h : Grow a c) : Grow a (c.trace t) := h.trans ⟨[t], rfl⟩
 
@@ -103,7 +123,7 @@ theorem grow_write {a c : Cfg} (t : Str) (h : Grow a c) : Grow a (c.write t) := 
 
 @[simp] theorem sv_redraw (c : Cfg) : c.redraw.sv = c.sv := by
   unfold Cfg.redraw Cfg.newSig
-  simp only [sv_enqueue]; rfl
+  rw [sv_enqueue_ne _ _ rfl]; rfl
 
 theorem grow_redraw {a c : Cfg} (h : Grow a c) : Grow a c.redraw := by
   unfold Cfg.redraw Cfg.newSig
@@ -117,7 +137,7 @@ theorem sv_deliver {c d : Cfg} (h : c.deliver = some d) : d.sv = c.sv := by
   · cases h
   · simp only [Cfg.newSig, Option.some.injEq] at h
     subst h
-    simp only [sv_enqueue]; rfl
+    rw [sv_enqueue_ne _ _ rfl]; rfl
 
 theorem grow_deliver {a c d : Cfg} (hd : c.deliver = some d) (h : Grow a c) : Grow a d := by
   unfold Cfg.deliver at hd
@@ -165,9 +185,9 @@ def unwindTo (kind : Kind) : List Instr → Option (List Instr)
     | .exit, .catchExit => some rest
     | _, _ => unwindTo kind rest
 
-/-- the view after an unwinding -/
+/-- the view after an unwinding: a caught ordinary exception enqueues an `ExceptionSignal` -/
 def unwoundSV (kind : Kind) (code : List Instr) (v : SV) : SV :=
-  { v with code := (unwindTo kind code).getD [] }
+  { v with code := (unwindTo kind code).getD [], clean := !(kind == .err && (unwindTo kind code).isSome) && v.clean }
 
 theorem sv_setCode (c : Cfg) (r : List Instr) : Cfg.sv { c with code := r } = { c.sv with code := r } := rfl
 
@@ -176,14 +196,14 @@ theorem sv_unwind (kind : Kind) (code : List Instr) (c : Cfg) :
   induction code with
   | nil => unfold unwind; cases kind <;> rfl
   | cons ins rest ih =>
-    have key : ∀ (s : Sig) (c1 : Cfg) (r : List Instr), c1.sv = c.sv →
-        Cfg.sv { (c1.enqueue s) with code := r } = { c.sv with code := r } := by
-      intro s c1 r h1
-      rw [sv_setCode, sv_enqueue, h1]
+    have key : ∀ (s : Sig) (c1 : Cfg) (r : List Instr), c1.sv = c.sv → s.cls = .exception →
+        Cfg.sv { (c1.enqueue s) with code := r } = { c.sv with code := r, clean := false } := by
+      intro s c1 r h1 h2
+      rw [sv_setCode, sv_enqueue, h1, h2]; rfl
     cases kind <;> cases ins <;>
       first
         | exact ih
-        | (simp only [unwind, unwindTo, unwoundSV, Cfg.newSig, outCfg_ok, Option.getD_some]; exact key _ _ _ rfl)
+        | (simp only [unwind, unwindTo, unwoundSV, Cfg.newSig, outCfg_ok, Option.getD_some]; exact key _ _ _ rfl rfl)
         | rfl
 
 theorem grow_unwind {a : Cfg} (kind : Kind) (code : List Instr) (c : Cfg) (h : Grow a c) :
@@ -208,7 +228,8 @@ def exitEv : Kind → List Tr
 
 /-- the view after raising an exception of kind `k` -/
 def raisedSV (k : Kind) (v : SV) : SV :=
-  { v with code := (unwindTo k v.code).getD [], ev := exitEv k ++ v.ev }
+  { v with code := (unwindTo k v.code).getD [], ev := exitEv k ++ v.ev,
+           clean := !(k == .err && (unwindTo k v.code).isSome) && v.clean }
 
 theorem sv_raise (c : Cfg) (k : Kind) : (outCfg (c.raise k)).sv = raisedSV k c.sv := by
   unfold Cfg.raise
@@ -241,8 +262,8 @@ theorem sv_take_ok {c c1 : Cfg} {s : Sig} (h : c.take = .ok (s, c1)) :
       intro d es s hd
       simp only [Cfg.sv, listSet, List.length_modify, shapeTr_cons, Tr.shape, if_true] at hd ⊢
       simp only [SV.mk.injEq] at hd
-      obtain ⟨h1, h2, h3, h4, h5, h6, h7, h8, h9⟩ := hd
-      simp [h1, h2, h3, h4, h5, h6, h7, h8, h9]
+      obtain ⟨h1, h2, h3, h4, h5, h6, h7, h8, h9, h10⟩ := hd
+      simp [h1, h2, h3, h4, h5, h6, h7, h8, h9, h10, cleanTr_cons, Tr.isExc]
     apply this
     split
     · exact sv_deliver_getD c
